@@ -10,10 +10,12 @@
    tied to the code by C20's operation-level correspondence) behind the shape all five call sites of symbolic.py share
    (coverage check -> replay what retrieval returns; otherwise evaluate, yield, store every row), for every operator whose
    rows bind every cache key, over ANY history of lookups.
-   MISSING: rows that leave a cache key open put the wildcard into the index; there the retrieval half of the contract is
-   REFUTED for the concrete index (Properties/C20.v, C20_retrieve_refuted; known findings C20-wildcard-preference /
-   C05-wildcard-retrieval).  That each call site of symbolic.py has the modelled shape, and what `yield_when_false` a cached
-   row was recorded under, is covered by the correspondence check only (cache on vs cache off vs specification). *)
+   MISSING: the same for operators whose rows leave a cache key open (the wildcard enters the index).  The index itself is
+   now proved exact there too (Properties/C20.v, C20_retrieve: retrieval = the reference answer for EVERY history - at the pinned
+   commit that statement was refuted and caused row losses, known findings C20-wildcard-preference / C05-wildcard-retrieval, both
+   repaired in /repo), but a cached operator may then hold the same row under several lookups and keeps, of the retrieved rows,
+   the most general ones - that step, that each call site of symbolic.py has the modelled shape, and which `yield_when_false` a
+   cached row was recorded under are covered by the correspondence check (cache on vs cache off vs specification), not by a theorem. *)
 From EQL Require Import Base Memo_Facts IndexedCache IndexedCache_Facts IndexedCache_Sound IndexedMemo_Facts.
 
 Theorem C05_memo_transparent_partial : forall (K R : Type) (keqb : K -> K -> bool),
